@@ -90,6 +90,10 @@ type world struct {
 
 func vaultOf(p string) string { return "v" + p[1:] }
 
+// minSpec: spec.MinStakeProvider per chain (default: the mock spec's 1000); set from the input so that it agrees
+// with MinSpec / MinSpecHigh / HighChains of the TLA+ configuration
+var minSpec = map[string]int64{}
+
 func newWorld(t *testing.T, seed int64) *world {
 	c := chainx.New(t, seed)
 	ts := c.TS
@@ -98,6 +102,9 @@ func newWorld(t *testing.T, seed int64) *world {
 		sp := common.CreateMockSpec()
 		sp.Index = cn
 		sp.Name = cn
+		if v, ok := minSpec[cn]; ok {
+			sp.MinStakeProvider = sdk.NewCoin(sp.MinStakeProvider.Denom, sdk.NewInt(v))
+		}
 		w.specs[cn] = ts.AddSpec(cn, sp).Spec(cn)
 	}
 	ts.AddPlan("mock", common.CreateMockPlan())
@@ -340,11 +347,15 @@ func TestDrive(t *testing.T) {
 	var behs [][]step
 	var wseeds []int64
 	var obj struct {
-		Behs  [][]step `json:"behs"`
-		Seeds []int64  `json:"seeds"`
+		Behs    [][]step         `json:"behs"`
+		Seeds   []int64          `json:"seeds"`
+		MinSpec map[string]int64 `json:"minspec"`
 	}
 	if err := json.Unmarshal(raw, &obj); err == nil && obj.Behs != nil {
 		behs, wseeds = obj.Behs, obj.Seeds
+		if obj.MinSpec != nil {
+			minSpec = obj.MinSpec
+		}
 	} else if err := json.Unmarshal(raw, &behs); err != nil {
 		t.Fatal(err)
 	}
